@@ -71,6 +71,64 @@ func c10SigCost(name string) int {
 	return kit.Medium
 }
 
+// c10HintExtras: hand-made hostile hint encodings for Dilithium / ML-DSA signatures. The hint section is
+// the last omega+k bytes of the lattice signature (followed by tail bytes of an appended EdDSA signature):
+// omega index bytes, then k switch-over points. Single alterations cannot build a run of strictly
+// increasing index bytes, which is what it takes to walk an over-large switch-over point to the end of
+// the buffer, so these are supplied by hand.
+func c10HintExtras(name string, sig []byte, tail int) []kit.Named {
+	dims := map[string][2]int{"2": {4, 80}, "3": {6, 55}, "5": {8, 75}, "44": {4, 80}, "65": {6, 55}, "87": {8, 75}}
+	var k, omega int
+	for suf, d := range dims {
+		if strings.HasSuffix(name, suf) {
+			k, omega = d[0], d[1]
+		}
+	}
+	if k == 0 || len(sig) < tail+omega+k {
+		return nil
+	}
+	mk := func(f func(h []byte)) []byte {
+		c := append([]byte{}, sig...)
+		f(c[len(c)-tail-omega-k : len(c)-tail])
+		return c
+	}
+	return []kit.Named{
+		{"hint-increasing-run-last-sop-FF", mk(func(h []byte) {
+			for i := range h {
+				h[i] = byte(i)
+			}
+			h[len(h)-1] = 0xff
+		})},
+		{"hint-increasing-run-all-sops-FF", mk(func(h []byte) {
+			for i := range h {
+				h[i] = byte(i)
+			}
+			for i := omega; i < len(h); i++ {
+				h[i] = 0xff
+			}
+		})},
+		{"hint-first-sop-FF", mk(func(h []byte) {
+			for i := 0; i < omega; i++ {
+				h[i] = byte(i + 1)
+			}
+			h[omega] = 0xff
+		})},
+		{"hint-sops-decreasing", mk(func(h []byte) {
+			for i := omega; i < len(h); i++ {
+				h[i] = byte(len(h) - i)
+			}
+		})},
+		{"hint-indices-FF", mk(func(h []byte) {
+			for i := 0; i < omega; i++ {
+				h[i] = 0xff
+			}
+			for i := omega; i < len(h); i++ {
+				h[i] = byte(omega)
+			}
+		})},
+	}
+}
+
 func c10RowsSignSchemes() []*kit.Row {
 	var rows []*kit.Row
 	for _, s := range schemes.All() {
@@ -108,8 +166,9 @@ func c10RowsSignSchemes() []*kit.Row {
 				k := c10SigKeygen(s)
 				f := c10ForeignSig(s)
 				return &kit.Inst{Bases: [][]byte{k.sig, k.sig2},
-					Call:   func(in []byte) error { return c10Bool(s.Verify(k.pk, c10Msg, in, nil)) },
-					Extras: []kit.Named{{"own-public-key", k.ppk}, {"own-private-key", k.psk}, {"foreign-signature", f.sig}}}
+					Call: func(in []byte) error { return c10Bool(s.Verify(k.pk, c10Msg, in, nil)) },
+					Extras: append([]kit.Named{{"own-public-key", k.ppk}, {"own-private-key", k.psk}, {"foreign-signature", f.sig}},
+						c10HintExtras(c10HintName(s.Name()), k.sig, c10HintTail(s.Name()))...)}
 			}})
 		if s.SupportsContext() {
 			rows = append(rows, &kit.Row{Name: n + ".Verify#sig(ctx)", Cost: cost, Covers: []string{tid + ".Verify"},
@@ -124,6 +183,36 @@ func c10RowsSignSchemes() []*kit.Row {
 		}
 	}
 	return rows
+}
+
+// c10HintName maps a scheme / package name to a name ending in the parameter-set suffix; c10HintTail is
+// the length of the EdDSA signature appended by the hybrid schemes.
+func c10HintName(n string) string {
+	switch {
+	case strings.Contains(n, "eddilithium2"), strings.Contains(n, "Ed25519-Dilithium2"):
+		return "2"
+	case strings.Contains(n, "eddilithium3"), strings.Contains(n, "Ed448-Dilithium3"):
+		return "3"
+	case strings.HasPrefix(n, "ML-DSA-"):
+		return strings.TrimPrefix(n, "ML-DSA-")
+	case strings.HasPrefix(n, "Dilithium"):
+		return strings.TrimPrefix(n, "Dilithium")
+	case strings.Contains(n, "/mode"):
+		return n[len(n)-1:]
+	case strings.Contains(n, "/mldsa"):
+		return n[len(n)-2:]
+	}
+	return ""
+}
+
+func c10HintTail(n string) int {
+	switch {
+	case strings.Contains(n, "eddilithium2"), strings.Contains(n, "Ed25519-Dilithium2"):
+		return ed25519.SignatureSize
+	case strings.Contains(n, "eddilithium3"), strings.Contains(n, "Ed448-Dilithium3"):
+		return ed448.SignatureSize
+	}
+	return 0
 }
 
 // c10CtxExtras: context strings around the 255-byte limit and beyond.
@@ -444,7 +533,7 @@ func c10RowsLattice() []*kit.Row {
 				p, err := l.unmPub(ppk)
 				c10Must(err)
 				return &kit.Inst{Bases: [][]byte{sig}, Call: func(in []byte) error { return c10Bool(l.verify(p, in)) },
-					Extras: []kit.Named{{"public-key", ppk}, {"private-key", psk}}}
+					Extras: append([]kit.Named{{"public-key", ppk}, {"private-key", psk}}, c10HintExtras(c10HintName(l.pkg), sig, c10HintTail(l.pkg))...)}
 			}})
 		if l.verifyCx != nil {
 			rows = append(rows, &kit.Row{Name: l.pkg + ".Verify#ctx", Cost: kit.Medium, Covers: []string{l.pkg + ".Verify"},
